@@ -39,7 +39,21 @@ def ufirst(x):
     return float(x[0]) - float(x[len(x) - 1])  # positional access: needs the documented plain array
 
 
-STATS = {"mean": np.mean, "median": np.median, "max": umax, "range": urange, "std": np.std, "var": np.var, "first-last": ufirst}
+def ustd1(x):
+    # sample standard deviation: UNDEFINED (NaN) on a segment of one sample -- NaN is neither below the lower nor above the
+    # upper bound, so such a segment is not flagged
+    with np.errstate(all="ignore"):
+        return np.std(x, ddof=1)
+
+
+def umeanpos(x):
+    # mean of the positive values: NaN on a segment without positive values
+    pos = np.asarray(x)[np.asarray(x) > 0]
+    return float(pos.mean()) if len(pos) else float("nan")
+
+
+STATS = {"mean": np.mean, "median": np.median, "max": umax, "range": urange, "std": np.std, "var": np.var, "first-last": ufirst,
+         "std-ddof1": ustd1, "mean-positive": umeanpos}
 BOUNDS = ((-1.0, 1.0), (0.0, 0.0), (-3.0, 3.0), (-1.0, -1.0), (0.5, 1.5))
 
 
@@ -142,7 +156,7 @@ def cases(tier, seed):
                 for xs in itertools.product((-2, 0, 2), repeat=n):
                     for stat in STATS:
                         for lo, hi in BOUNDS:
-                            if n == top and stat in ("range", "var", "first-last", "max") and (lo, hi) not in ((0.0, 0.0), (0.5, 1.5)):
+                            if n == top and stat in ("range", "var", "first-last", "max", "std-ddof1", "mean-positive") and (lo, hi) not in ((0.0, 0.0), (0.5, 1.5)):
                                 continue
                             yield {"fam": "fixed", "cpts": list(cps), "x": list(xs), "stat": stat, "lo": lo, "hi": hi}
     # non-default index for the user detector
